@@ -39,7 +39,14 @@ func (l linearInterpolator) interpolate(frac float64) Point {
 	if idx-1 >= 0 {
 		partial -= l.cumulative[idx-1]
 	}
-	partial /= p0.XY.distanceTo(p1.XY)
+	segLength := p0.XY.distanceTo(p1.XY)
+	if segLength == 0 {
+		// A zero length segment (repeated point). This is reached when
+		// interpolating at the very start of a sequence that begins with a
+		// repeated point. Dividing would give NaN.
+		return p0.AsPoint()
+	}
+	partial /= segLength
 
 	return interpolateCoords(p0, p1, partial).AsPoint()
 }
